@@ -4,7 +4,7 @@
 meta.json's detected_by.  usage: tools/seed_check.py [seed-name ...]"""
 import json, os, shutil, subprocess, sys, tempfile
 from concurrent.futures import ThreadPoolExecutor
-V = '/verif'
+V = os.path.dirname(os.path.dirname(os.path.abspath(__file__)))  # the tree this tool lives in (a `vp run` snapshot runs its own copy)
 man = json.load(open(f'{V}/MANIFEST.json'))
 pids = [c['property_id'] for c in man['checks']]
 names = sys.argv[1:] or sorted(os.listdir(f'{V}/seeded'))
